@@ -116,11 +116,15 @@ int KSI_Signature_verifyWithPolicy(KSI_Signature *sig, const KSI_DataHash *docHs
 		goto cleanup;
 	}
 
-	if (verificationContext == NULL) {
-		context.documentHash = docHsh;
-		context.docAggrLevel = rootLevel;
-	} else {
+	if (verificationContext != NULL) {
 		context = *verificationContext;
+	}
+	/* The document hash and the level given as arguments bind the verification, with or without a context. */
+	if (verificationContext == NULL || docHsh != NULL) {
+		context.documentHash = docHsh;
+	}
+	if (verificationContext == NULL || rootLevel != 0) {
+		context.docAggrLevel = rootLevel;
 	}
 	context.signature = sig;
 
